@@ -26,7 +26,11 @@ func c04keys(n int) []int {
 func (s *c04m) store(k, v int) { s.m.Store(k, v); s.model[k] = v }
 func (s *c04m) del(k int)      { s.m.Delete(k); delete(s.model, k) }
 func (s *c04m) promote() {
-	s.m.Range(func(int, int) bool { return true })
+	if vChoose("promoteBy", 2) == 0 {
+		s.m.Range(func(int, int) bool { return true })
+	} else {
+		s.m.Load(s.keys[0]) // a miss on a dirty-only key promotes once misses reach len(dirty)
+	}
 }
 
 func (s *c04m) prefix() {
